@@ -388,7 +388,8 @@ def gen_tags(rng, types=None, maxlen=40):
     if n > 5:
         maxlen = 4
     tags, used = [], set()
-    shared_inst = (rng.choice([0x99, 0x9A, 0x401]), rng.randint(1, 3))
+    # (class 2 is the Message Router's own class: another instance of it is an ordinary home for tag attributes)
+    shared_inst = (rng.choice([0x99, 0x9A, 0x401]), rng.randint(1, 3)) if rng.random() < 0.85 else (2, rng.randint(2, 3))
     for k in range(n):
         ty = rng.choice(types)
         scalar = rng.random() < 0.2
